@@ -1,7 +1,7 @@
 (** Property C07 — collect(), next() and fast_forward() are the same run.
     Statements only; proofs in Run/RunFacts.v.  Every statement is for an arbitrary matcher. *)
 From Coq Require Import ZArith List Bool.
-From V Require Import Scan.ScanModel Run.RunLoop Run.RunFacts Run.RunPrefix Match.Adjudicate Match.Ctl.
+From V Require Import Scan.ScanModel Run.RunLoop Run.RunFacts Run.RunPrefix Match.Adjudicate Match.Ctl Scan.PySem Scan.ScanSrc Run.RunSem Run.RunSrc Run.RunSrcEq.
 Import ListNotations.
 Open Scope Z_scope.
 
@@ -69,3 +69,18 @@ Example C07_nonvacuous :
   log (x mx (st Z mx (collect Z mx (ctl_m c false prog) c x0 recs))) = [(1, 1); (1, 2)] /\
   returned Z mx (collect_n Z mx (ctl_m c false prog) 1%nat c x0 recs) = [[1]].
 Proof. vm_compute. repeat split. Qed.
+
+(** the source itself: CsvPath._consider_line as translated from csvpath/csvpath.py (Run/RunSrc.v, regenerated on every run) — with the
+    source's own Scanner.includes / Scanner.is_last, raise_match_count_if, stop() and LineMonitor.is_last_line_and_blank — is the model's
+    per-record step [consider], for every matcher that leaves the line monitor alone, every scanner state, run state and record: the same
+    state afterwards (scan_count, match_count, advance_count, stopped, frozen, the matcher's own state), the same "yield this line", never a raise.
+    All three entry points run this one step per record, which is why they are the same run; stop / advance / last act through it. *)
+Theorem C07_step_source : forall (C X : Type) (m : rs X -> list C -> rs X * bool),
+  (forall s l, pln X (fst (m s l)) = pln X s) ->
+  forall (c : cfg) (s : rs X) (l : list C), q_scan c = false ->
+  consider_line_src C X m (of_oz (from_line (scanner c))) (of_oz (to_line (scanner c))) (PBool (all_lines (scanner c))) (PList (these (scanner c)))
+    (of_oz (end_line c)) (cwnm c) true s l
+  = Some (fst (consider C X m c s l), PBool (ev_returned (snd (consider C X m c s l)))).
+Proof. exact consider_line_src_eq. Qed.
+Print Assumptions C07_step_source.
+
